@@ -31,6 +31,7 @@ Section Shape.
   Lemma same6_fetch_all ids : forall s, same6 s (fst (fetch_all sc s ids)).
   Proof.
     induction ids as [|i t IH]; intros s; cbn [fetch_all]; [apply same6_refl|].
+    destruct (negb (kind_known sc (r_known s) i)); [apply IH|].
     pose proof (same6_get_obj s i) as G. destruct (get_obj sc s i) as [s1 g]. cbn [fst] in G.
     destruct g; cbn [fst]; [exact G|eapply same6_trans; [exact G|apply IH]|].
     specialize (IH s1). destruct (fetch_all sc s1 t) as [s2 r]. cbn [fst] in *. eapply same6_trans; eassumption.
@@ -66,36 +67,45 @@ Section Shape.
   Qed.
 
   (* ---- the prune candidates as read from the cluster ------------------------------- *)
+  (* (candidates whose kind a freshly reset mapper does not know are skipped without a read) *)
   Definition found_in (cl : cluster) (ids : list id) : list cobj :=
-    flat_map (fun i => match find_obj (objs cl) i with Some c => [c] | None => [] end) ids.
+    flat_map (fun i => if kind_known sc (live_crds sc cl) i
+                       then match find_obj (objs cl) i with Some c => [c] | None => [] end
+                       else []) ids.
 
-  Lemma fetch_all_exact ids : forall s found,
+  Lemma fetch_all_exact ids : forall s found, r_known s = live_crds sc (r_cl s) ->
     snd (fetch_all sc s ids) = Some found -> found = found_in (r_cl s) ids.
   Proof.
-    induction ids as [|i t IH]; intros s found E; cbn [fetch_all] in E.
+    induction ids as [|i t IH]; intros s found HK E; cbn [fetch_all] in E.
     - cbn in E. injection E as <-. reflexivity.
-    - unfold get_obj in E. destruct (faulted sc _); [cbn in E; discriminate|].
-      cbn [found_in flat_map]. fold (found_in (r_cl s) t).
+    - cbn [found_in flat_map]. fold (found_in (r_cl s) t). rewrite <- HK.
+      destruct (kind_known sc (r_known s) i); cbn [negb] in E; [|cbn [app]; apply IH; assumption].
+      unfold get_obj in E. destruct (faulted sc _); [cbn in E; discriminate|].
       destruct (find_obj (objs (r_cl s)) i) as [c|] eqn:F.
       + match type of E with context [fetch_all sc ?s1 t] =>
           specialize (IH s1); destruct (fetch_all sc s1 t) as [s2 r] end.
         cbn [snd] in *. destruct r as [r|]; [|discriminate]. cbn in E. injection E as <-.
-        cbn [app]. f_equal. apply (IH r eq_refl).
-      + cbn [app]. apply IH in E. exact E.
+        cbn [app]. f_equal. apply (IH r HK eq_refl).
+      + cbn [app]. apply (IH _ found) in E; [exact E|exact HK].
   Qed.
 
-  Lemma found_in_In cl ids c : In c (found_in cl ids) <-> In (c_id c) ids /\ find_obj (objs cl) (c_id c) = Some c.
+  Lemma found_in_In_iff cl ids c : In c (found_in cl ids) <->
+    In (c_id c) ids /\ find_obj (objs cl) (c_id c) = Some c /\ kind_known sc (live_crds sc cl) (c_id c) = true.
   Proof.
     unfold found_in. rewrite in_flat_map. split.
-    - intros [i [Hi H]]. destruct (find_obj (objs cl) i) as [c'|] eqn:F; [|destruct H].
+    - intros [i [Hi H]]. destruct (kind_known sc (live_crds sc cl) i) eqn:K; [|destruct H].
+      destruct (find_obj (objs cl) i) as [c'|] eqn:F; [|destruct H].
       destruct H as [<-|[]]. pose proof (find_obj_id _ _ _ F) as E. subst i. auto.
-    - intros [Hi F]. exists (c_id c). split; [exact Hi|]. rewrite F. left. reflexivity.
+    - intros [Hi [F K]]. exists (c_id c). split; [exact Hi|]. rewrite K, F. left. reflexivity.
   Qed.
+  Lemma found_in_In cl ids c : In c (found_in cl ids) -> In (c_id c) ids /\ find_obj (objs cl) (c_id c) = Some c.
+  Proof. intros H. apply found_in_In_iff in H. tauto. Qed.
 
   Lemma found_in_NoDup cl ids : NoDup ids -> NoDup (map c_id (found_in cl ids)).
   Proof.
     induction 1 as [|i t Hi Ht IH]; cbn; [constructor|].
-    fold (found_in cl t). destruct (find_obj (objs cl) i) as [c|] eqn:F; cbn [app map]; [|exact IH].
+    fold (found_in cl t). destruct (kind_known sc (live_crds sc cl) i); [|exact IH].
+    destruct (find_obj (objs cl) i) as [c|] eqn:F; cbn [app map]; [|exact IH].
     constructor; [|exact IH]. pose proof (find_obj_id _ _ _ F) as E. rewrite E.
     intros H. apply in_map_iff in H. destruct H as [c' [E' H]]. apply found_in_In in H. rewrite E' in H. tauto.
   Qed.
@@ -108,7 +118,7 @@ Section Shape2.
   Definition locals_of : list lobj := if o_destroy (sc_opts sc) then [] else sc_local sc.
   Definition cand_of : list id := sortn (diffn (prev_of c0) (map l_id locals_of)).
 
-  Lemma plan_of_eq : plan_of sc c0 = build_plan sc locals_of (found_in c0 cand_of).
+  Lemma plan_of_eq : plan_of sc c0 = build_plan sc (live_crds sc c0) locals_of (found_in sc c0 cand_of).
   Proof. reflexivity. Qed.
 
   Notation pl := (plan_of sc c0).
@@ -141,16 +151,20 @@ Section Shape2.
   Lemma run_state_shape : run_shape (run_state sc c0).
   Proof.
     unfold run_state. cbv zeta.
-    pose proof (same6_inv_list sc (init_state c0)) as L1. pose proof (inv_list_res sc (init_state c0)) as R1.
-    destruct (inv_list sc (init_state c0)) as [s1 r1]. cbn [fst snd] in *.
-    destruct L1 as [C1 [B1 [K1 [A1 [T1 X1]]]]]. cbn [init_state r_cl r_tbl r_cache r_aband r_tr r_abort] in *.
+    pose proof (same6_inv_list sc (init_state sc c0)) as L1. pose proof (inv_list_res sc (init_state sc c0)) as R1.
+    pose proof (known_inv_list sc (init_state sc c0)) as KN1.
+    destruct (inv_list sc (init_state sc c0)) as [s1 r1]. cbn [fst snd] in *.
+    destruct L1 as [C1 [B1 [K1 [A1 [T1 X1]]]]]. cbn [init_state r_cl r_tbl r_cache r_aband r_tr r_abort r_known] in *.
     destruct r1 as [st|]; [|apply rs_fatal; assumption].
     specialize (R1 st eq_refl). subst st. fold (prev_of c0). fold locals_of. fold cand_of.
     pose proof (same6_fetch_all sc cand_of s1) as L2. pose proof (fetch_all_exact sc cand_of s1) as FE.
+    pose proof (known_fetch_all sc cand_of s1) as KN2.
     destruct (fetch_all sc s1 cand_of) as [s2 r2]. cbn [fst snd] in *.
     destruct L2 as [C2 [B2 [K2 [A2 [T2 X2]]]]].
     destruct r2 as [pobjs|]; [|apply rs_fatal; congruence].
-    specialize (FE pobjs eq_refl). rewrite C1 in FE. subst pobjs. rewrite <- plan_of_eq.
+    assert (HK1 : r_known s1 = live_crds sc (r_cl s1)) by (rewrite KN1, C1; reflexivity).
+    specialize (FE pobjs HK1 eq_refl). rewrite C1 in FE. subst pobjs.
+    replace (r_known s2) with (live_crds sc c0) by (rewrite KN2, KN1; reflexivity). rewrite <- plan_of_eq.
     pose proof (register_fields sc pl s2) as [C3 [K3 [A3 [T3 X3]]]].
     pose proof (same6_inv_list sc (register sc pl s2)) as L4. pose proof (inv_list_res sc (register sc pl s2)) as R4.
     destruct (inv_list sc (register sc pl s2)) as [s4 r4]. cbn [fst snd] in *.
@@ -195,9 +209,9 @@ Section Shape2.
   Proof. unfold locals_of. destruct (o_destroy (sc_opts sc)) eqn:ED; [constructor|apply HND; exact ED]. Qed.
   Lemma cand_of_NoDup : NoDup cand_of.
   Proof. unfold cand_of. apply sortn_NoDup. apply (diff_NoDup nat Nat.eqb nat_eqb_spec). Qed.
-  Lemma pobjs_NoDup : NoDup (map c_id (found_in c0 cand_of)).
+  Lemma pobjs_NoDup : NoDup (map c_id (found_in sc c0 cand_of)).
   Proof. apply found_in_NoDup. exact cand_of_NoDup. Qed.
-  Lemma pobjs_disj c : In c (found_in c0 cand_of) -> ~ In (c_id c) (map l_id locals_of).
+  Lemma pobjs_disj c : In c (found_in sc c0 cand_of) -> ~ In (c_id c) (map l_id locals_of).
   Proof.
     intros H. apply found_in_In in H. destruct H as [H _]. unfold cand_of in H.
     apply (proj1 (sortn_In _ _)) in H. apply (proj1 (diffn_In _ _ _)) in H. tauto.
